@@ -436,6 +436,47 @@ conflict("record_tensor_mutated_while_iterated", "C20_borrow_carried", "AsRecord
          "list = WengertList::new(); let mut x = RecordTensor::variables(&list, %s)" % NEW_T, "x.iter_as_records()",
          "x.reset()", "let _ = v.count()", "error E0502")
 
+# every matrix iterator: the matrix cannot be mutated (shared iterators, E0502) nor borrowed again
+# (mutable iterators, E0499) while the iterator is alive
+for meth, decl in (("column_iter(0)", "ColumnIterator"), ("row_iter(0)", "RowIterator"),
+                   ("column_major_iter()", "ColumnMajorIterator"), ("row_major_iter()", "RowMajorIterator"),
+                   ("diagonal_iter()", "DiagonalIterator"),
+                   ("column_reference_iter(0)", "ColumnReferenceIterator"), ("row_reference_iter(0)", "RowReferenceIterator"),
+                   ("column_major_reference_iter()", "ColumnMajorReferenceIterator"),
+                   ("row_major_reference_iter()", "RowMajorReferenceIterator"),
+                   ("diagonal_reference_iter()", "DiagonalReferenceIterator")):
+    conflict("matrix_set_while_%s_alive" % meth.split("(")[0], "C20_borrow_carried", "matrices::iterators::" + decl, U_M,
+             "mut m = " + NEW_M, "m." + meth, "m.set(0, 0, 5.0)", "let _ = v.count()", "error E0502")
+for meth, decl in (("column_reference_mut_iter(0)", "ColumnReferenceMutIterator"), ("row_reference_mut_iter(0)", "RowReferenceMutIterator"),
+                   ("column_major_reference_mut_iter()", "ColumnMajorReferenceMutIterator"),
+                   ("row_major_reference_mut_iter()", "RowMajorReferenceMutIterator"),
+                   ("diagonal_reference_mut_iter()", "DiagonalReferenceMutIterator")):
+    conflict("matrix_set_while_%s_alive" % meth.split("(")[0], "C20_borrow_carried", "matrices::iterators::" + decl, U_M,
+             "mut m = " + NEW_M, "m." + meth, "m.set(0, 0, 5.0)", "let _ = v.count()", "error E0499")
+    conflict("matrix_read_while_%s_alive" % meth.split("(")[0], "C20_borrow_carried", "matrices::iterators::" + decl, U_M,
+             "mut m = " + NEW_M, "m." + meth, "let n = m.get(0, 0)", "let _ = v.count()", "error E0502")
+# views: the container cannot be mutated while a view over it is alive (the borrow is the view's source
+# argument; the prediction is the one of the iterator it hands out)
+for meth in ("view()", "index_by([\"x\"])", "range([(\"x\", 0..1)]).unwrap()", "mask([(\"x\", 0..1)]).unwrap()",
+             "reverse(&[\"x\"])", "rename_view([\"y\"])", "select([(\"x\", 0)])", "expand([(0, \"y\")])", "transpose_view([\"x\"])"):
+    conflict("tensor_mutated_while_%s_alive" % meth.split("(")[0], "C20_borrow_carried", "tensors::indexing::TensorIterator", U_T,
+             "mut t = " + NEW_T, "t." + meth, "t.map_mut(|x| x + 1.0)", "let _ = v.iter().count()", "error E0502")
+for meth in ("view_mut()", "index_by_mut([\"x\"])", "range_mut([(\"x\", 0..1)]).unwrap()", "mask_mut([(\"x\", 0..1)]).unwrap()",
+             "reverse_mut(&[\"x\"])"):
+    conflict("tensor_read_while_%s_alive" % meth.split("(")[0], "C20_borrow_carried", "tensors::indexing::TensorReferenceMutIterator", U_T,
+             "mut t = " + NEW_T, "t." + meth, "let n = t.iter().count()", "let _ = v.iter().count()", "error E0502")
+for meth in ("range(0..1, 0..1)", "reverse(easy_ml::matrices::views::Reverse { rows: true, columns: false })"):
+    conflict("matrix_mutated_while_%s_view_alive" % meth.split("(")[0], "C20_borrow_carried", "matrices::iterators::RowMajorIterator", U_M,
+             "mut m = " + NEW_M, "m." + meth, "m.set(0, 0, 5.0)", "let _ = v.row_major_iter().count()", "error E0502")
+# record containers: their record iterators pin the container, the container pins the tape
+conflict("record_matrix_mutated_while_iterated", "C20_borrow_carried", "AsRecords", U_D,
+         "list = WengertList::new(); let mut x = RecordMatrix::variables(&list, %s)" % NEW_M, "x.iter_row_major_as_records()",
+         "x.reset()", "let _ = v.count()", "error E0502")
+outlive("as_records_outlives_container", "C20_borrow_carried", "AsRecords", U_D,
+        "list = WengertList::new(); let x = RecordTensor::variables(&list, %s)" % NEW_T, "x.iter_as_records()", "let _ = v.count()")
+outlive("derivatives_outlive_tape_ok", "C20_owning_types_lifetime_free", "differentiation::Derivatives", U_D,
+        "list = WengertList::new()", "{ let x = Record::variable(1.0f64, &list); (x * x).derivatives() }", "let _ = v", expect="compile")
+
 # ------------------------------------------------------------------ documented valid usages
 probe("valid_record_usage", "C20_borrow_carried", "valid", "compile", """
 fn main() {
